@@ -826,6 +826,59 @@ func init() {
 		var v value = structure{parent, a[1], a[2]}
 		return iface{t: types.NewPointer(cp.Type("valueCtx").Type()), v: &v}
 	}
+	// (bitstr.Key).Xor on equal-length keys: byte i is '1' iff the bytes differ
+	// (no fork per bit). Unequal lengths and concrete keys run the real body.
+	summaries["(github.com/ipfs/go-libdht/kad/key/bitstr.Key).Xor"] = func(fr *frame, a []value) value {
+		_, s0 := a[0].(*symStr)
+		_, s1 := a[1].(*symStr)
+		if !s0 && !s1 {
+			return fr.interpretBody(a)
+		}
+		x, y := strBytes(a[0]), strBytes(a[1])
+		if len(x) != len(y) {
+			return fr.interpretBody(a)
+		}
+		out := make([]value, len(x))
+		u8 := types.Typ[types.Uint8]
+		for k := range x {
+			eq := fr.i.eqv(u8, x[k], y[k])
+			switch e := eq.(type) {
+			case bool:
+				if e {
+					out[k] = uint8('0')
+				} else {
+					out[k] = uint8('1')
+				}
+			case *Term:
+				out[k] = fr.i.tc.Ite(e, fr.i.tc.Const(8, '0'), fr.i.tc.Const(8, '1'))
+			}
+		}
+		return mkStr(out)
+	}
+	// strconv.ParseInt(s, 2, 64) on a symbolic bit string of < 63 characters
+	// that are all '0'/'1': the binary value as one term.
+	summaries["strconv.ParseInt"] = func(fr *frame, a []value) value {
+		ss, ok := a[0].(*symStr)
+		base, _ := a[1].(int)
+		if !ok || base != 2 || len(ss.b) == 0 || len(ss.b) > 62 {
+			if ok {
+				unsupported("strconv.ParseInt of a symbolic string (base %d, %d chars)", base, len(ss.b))
+			}
+			return hostFn(strconv.ParseInt)(fr, a)
+		}
+		tc := fr.i.tc
+		acc := tc.Const(64, 0)
+		for _, b := range ss.b {
+			bt := fr.i.toTerm(b)
+			is1 := tc.Eq(bt, tc.Const(8, '1'))
+			is0 := tc.Eq(bt, tc.Const(8, '0'))
+			if !fr.i.truth(wrapK(types.Bool, tc.BOr(is0, is1))) {
+				unsupported("strconv.ParseInt base 2 of a symbolic string with non-binary characters")
+			}
+			acc = tc.Bin(OpAdd, tc.Bin(OpShl, acc, tc.Const(64, 1)), tc.Ite(is1, tc.Const(64, 1), tc.Const(64, 0)))
+		}
+		return tuple{wrapK(types.Int64, acc), iface{}}
+	}
 	// ---------------- tracing ----------------
 	startSpan := func(fr *frame, a []value) value {
 		tp := fr.i.prog.ImportedPackage("go.opentelemetry.io/otel/trace")
